@@ -140,10 +140,15 @@ func c06ReTableList(q string, res *benchfmt.Result) []hx.Sx {
 	}
 	sortStrings(keys)
 	cands := c06Candidates(res)
-	var l []hx.Sx
+	// first the regexp texts the generator itself put into the expression (not taken from the parser under test)
+	seen := map[[2]string]bool{}
+	l := c06ReExtra(res, seen)
 	for _, k := range keys {
 		re := regexp.MustCompile(k) // compiled afresh from its text
 		for _, c := range cands {
+			if seen[[2]string{k, c}] {
+				continue
+			}
 			l = append(l, hx.L(hx.S(k), hx.S(c), hx.Bool(re.MatchString(c))))
 		}
 	}
@@ -1193,6 +1198,8 @@ func genC06(o *hx.Out, r *hx.Rng, tier string, replay string) error {
 	h := r.Split()
 	// results without measurements (own stream, split last)
 	em := r.Split()
+	// regexp terms that are an anchored literal, on values that contain the literal (own stream)
+	an := r.Split()
 	nEmpty := 120
 	if tier == "thorough" {
 		nEmpty = 2000
@@ -1222,6 +1229,20 @@ func genC06(o *hx.Out, r *hx.Rng, tier string, replay string) error {
 	for i := 0; i < nhist/2; i++ {
 		if err := c06Hist(o, hf, 3); err != nil {
 			return err
+		}
+	}
+	if err := c06AnchorFixed(o); err != nil {
+		return err
+	}
+	perAnchor := 70
+	if tier == "thorough" {
+		perAnchor = 1000
+	}
+	for _, n := range []int{1, 2, 3, 5, 33, 65} {
+		for i := 0; i < perAnchor; i++ {
+			if err := c06AnchorOne(o, an, n); err != nil {
+				return err
+			}
 		}
 	}
 	for _, n := range ns {
